@@ -8,6 +8,10 @@ use serde_json::json;
 use text2num::{replace_numbers_in_text, text2digits};
 
 pub const WS: [&str; 16] = [" ", "  ", "\t", "\n", "\r\n", "\u{a0}", "\u{2009}", "\u{202f}", "\u{3000}", " \t ", "\u{85}", "\u{2028}", "\u{1680}", "\u{b}", "\n\n", "\n \n"];
+/// very long runs (amount of whitespace): 1 100 spaces, 400 ideographic spaces (1 200 bytes), 5 000 newlines
+pub fn long_ws() -> Vec<String> {
+    vec![" ".repeat(1100), "\u{3000}".repeat(400), "\n".repeat(5000)]
+}
 
 /// positions (byte ranges) of the maximal whitespace runs of `s`
 fn ws_runs(s: &str) -> Vec<(usize, usize)> {
@@ -69,6 +73,16 @@ fn one_text(ctx: &Ctx, acc: &mut Acc, l: L, lang: &text2num::Language, syms: &[&
         }
         variants.push(format!("{w}{base}"));
         variants.push(format!("{base}{w}"));
+    }
+    // amount: very long runs, on the short sequences only
+    if syms.len() <= 2 {
+        for w in long_ws() {
+            if !runs.is_empty() {
+                variants.push(substitute(&base, &runs, None, &w));
+            }
+            variants.push(format!("{w}{base}"));
+            variants.push(format!("{base}{w}"));
+        }
     }
     for v in variants {
         acc.nontrivial += 1;
@@ -184,7 +198,7 @@ pub fn run(tier: Tier) -> i32 {
     let cov = json!({
         "exhaustive": true,
         "rule": "every word sequence of length <= k joined by single spaces; every maximal whitespace run replaced uniformly and one at a time by each of 16 whitespace strings, and each prepended/appended; validator, occurrence texts/values and pass-through compared with the original at thresholds 0 and 10; non-trivial = substituted variants",
-        "bounds": {"alphabet": n, "depth": k, "whitespace_kinds": WS.iter().map(|w| w.escape_unicode().to_string()).collect::<Vec<_>>()},
+        "bounds": {"alphabet": n, "depth": k, "whitespace_kinds": WS.iter().map(|w| w.escape_unicode().to_string()).collect::<Vec<_>>(), "long_runs_on_sequences_of_at_most_2": "1100 spaces, 400 ideographic spaces, 5000 newlines"},
         "alphabets": alphas,
     });
     ctx.finish(total, cov, vec!["only characters with the Unicode White_Space property count as whitespace (U+200B is not)".into()])
